@@ -379,7 +379,7 @@ def _chk_resize(args, res, old):
         return "resize_ranges(%d, %r): got %r, expected %r" % (bp, sizes, got[:6], want[:6])
 
 
-contract("skgenome/gary.py::GenomicArray.resize_ranges", params=dict(a=ObjT("GenomicArray"), bp=Int), bounded=True,
+contract("skgenome/gary.py::GenomicArray.resize_ranges#rt", params=dict(a=ObjT("GenomicArray"), bp=Int), bounded=True,
          gen=_gen_resize, call=lambda fn, a: a["a"].resize_ranges(a["bp"], a["sizes"]), props=("C06", "C12"),
          checks=[("moved_clipped_dropped", _chk_resize)])
 
@@ -592,3 +592,46 @@ contract("skgenome/gary.py::GenomicArray.iter_ranges_of",
          call=lambda fn, a: list(a["a"].iter_ranges_of(a["b"], "gene", a["mode"], a["keep_empty"]))
          if a["mode"] != "trim" and len(a["a"]) and len(a["b"]) and "gene" in a["a"].data.columns else [],
          props=("C07", "C03", "C17"), checks=[("column_values_per_query", _chk_iter_ranges_of)])
+
+
+# ----------------------------------------------------------------------------- deductive: resize_ranges
+CHROM = Atom("Chrom")
+GENE = Atom("Gene")
+_GA = ObjT("GenomicArray", data=TabT(index="range", chromosome=CHROM, start=Int, end=Int, gene=GENE), meta=DictT())
+_NS = "clip3(self.data.start[k] - bp, 0, UP)"
+_NE = "clip3(self.data.end[k] + bp, 0, UP)"
+
+
+@spec
+def clip3(x, lo, hi):
+    """x clipped to [lo, hi]; hi None = unbounded above"""
+    return (lo if x < lo else x) if hi is None else (lo if x < lo else (hi if x > hi else x))
+
+
+def _resize_contract(with_sizes):
+    up = "chrom_sizes(self.data.chromosome[k])" if with_sizes else "None"
+    ns, ne = _NS.replace("UP", up), _NE.replace("UP", up)
+    return [
+        ("rows_are_resized_inputs", ("forall(0, len(result.data), lambda j: let(lambda k: 0 <= k and k < len(self.data) and "
+                                     "result.data.chromosome[j] == self.data.chromosome[k] and result.data.gene[j] == self.data.gene[k] and "
+                                     "result.data.start[j] == NS and result.data.end[j] == NE and implies(bp < 0, NE - NS > 0), "
+                                     "result.data.index[j]))").replace("NS", ns).replace("NE", ne)),
+        ("in_order", "forall(0, len(result.data), lambda a: forall(0, len(result.data), lambda b: "
+                     "implies(a < b, result.data.index[a] < result.data.index[b])))"),
+        ("every_surviving_interval_kept", ("forall(0, len(self.data), lambda k: implies(bp >= 0 or NE - NS > 0, "
+                                           "exists(0, len(result.data), lambda j: result.data.index[j] == k)))").replace("NS", ns).replace("NE", ne)),
+    ]
+
+
+contract(
+    "skgenome/gary.py::GenomicArray.resize_ranges",
+    params=dict(self=_GA, bp=Int, chrom_sizes=Lit(None)),
+    returns=ObjT("GenomicArray", data=TabT(index="masked", chromosome=CHROM, start=Int, end=Int, gene=GENE), meta=DictT()),
+    requires=[],
+    ensures=_resize_contract(False),
+    props=("C06", "C12"), domain="skip",
+    canaries=[("no_lower_clip", 'limits = {"lower": 0}', 'limits = {"lower": -1000000000}'),
+              ("end_not_moved", '(table["end"] + bp)', '(table["end"])'),
+              ("keep_empty", '> 0', '>= 0'),
+              ("shrink_wrong_sign", '(table["start"] - bp)', '(table["start"] + bp)')],
+)
